@@ -78,10 +78,10 @@ _T = "SigModel.ShapesFederation."
 CONFIG = dict(
     modules=["SigModel.Props.C12"],
     theorems=[_T + t for t in [
-        "C12_total", "C12_total_run", "C12_contained", "C12_invalid_ignored", "C12_session_closed_only_by_bye",
-        "C12_prehello_local_effects", "C12_derefs_validated", "C12_model_covers_derefs",
-        "C12_validated_nonnil", "C12_no_deadlock_facts", "C12_unvalidated_crashes", "C12_defer_under_hello_lock_deadlocks",
-        "C12_unchecked_bye_crashes"]],
+        "C12_generated_sound", "C12_total", "C12_total_generated", "C12_total_run", "C12_contained", "C12_invalid_ignored",
+        "C12_session_closed_only_by_bye", "C12_prehello_local_effects", "C12_validated_nonnil", "C12_derefs_validated",
+        "C12_model_covers_derefs", "C12_no_deadlock_facts", "C12_unvalidated_crashes",
+        "C12_defer_under_hello_lock_deadlocks", "C12_unchecked_bye_crashes"]],
     generated=["ShapesFederation"],
     harness=dict(pkg="signaling", test="TestVerifC12", timeout=1500),
     stats=c12_stats,
